@@ -887,6 +887,26 @@ func judgePanicTwin(rep *lib.Report, c *lib.Ctx, ln *printerLine, res *realResul
 		return
 	}
 	rep.Count("panic_twin_compared", 1)
+	// ... and on the visible side: a contained panic does not change how the text after the report is classified
+	// (what follows it is as visible as it is in the twin; the report's own frame is visible, its payload as declared)
+	{
+		vpat := regexp.QuoteMeta(string(lib.DeleteEnvelopes(tr.Out)))
+		okv := true
+		for k, tw := range tc.Twins {
+			ph := regexp.QuoteMeta(lib.TwinPlaceholder(k))
+			if !strings.Contains(vpat, ph) {
+				okv = false // the placeholder itself sits inside an envelope in the twin (e.g. under Unsafe()): no oracle
+				break
+			}
+			vpat = strings.Replace(vpat, ph, `%!.\(PANIC=`+tw.Method+`\w* method: (?s:.*?)\)`, 1)
+		}
+		if vre, err := regexp.Compile(`^(?s:` + vpat + `)$`); okv && err == nil {
+			if got := lib.DeleteEnvelopes(res.Out); !vre.Match(got) {
+				rep.Violate("printer:panic-changes-classification", fmt.Sprintf("%s: with envelopes deleted the output is %q; the twin (placeholders where methods would panic) shows %q: the text around the report is classified differently",
+					caseString(c, ln.C), got, lib.DeleteEnvelopes(tr.Out)), kase)
+			}
+		}
+	}
 	if got := lib.Strip(res.Out); !re.Match(got) {
 		rep.Violate("printer:panic-not-in-place", fmt.Sprintf("%s: characters %q; with the panic points replaced by placeholders the same call prints %q, so %q was expected",
 			caseString(c, ln.C), got, lib.Strip(tr.Out), pat), kase)
